@@ -516,7 +516,9 @@ func runDL(c *Case) {
 				performed = true
 			}
 		case "hstart", "hwrong":
-			if st == nReader && !hEverStarted {
+			// (the handler thread is dispatched while the reader is installed; its first statement
+			// may run after a cancel closed the reader: a late start)
+			if (st == nReader || st == nClosed) && !hEverStarted {
 				hEverStarted = true
 				node.Lock()
 				node.hStarted = true
@@ -623,6 +625,13 @@ loop:
 	if blocked {
 		res = 9 // a Cancel/Stop call did not return: never admitted by the model
 	}
+	// the transaction stream is closed (ended, or cut by a cancel): HandleBlock has nothing left to
+	// wait for but the signalling channels
+	node.Lock()
+	if hEverStarted && !node.chOpen {
+		done = append(done, "LStreamClosed")
+	}
+	node.Unlock()
 	c.trace = done
 	c.coq = fmt.Sprintf("(mkDCase 2 1 %s (mkObs %s %d %s %d %d))", coqfmt.List(done), coqfmt.Bool(runReturned), res,
 		coqfmt.Bool(hReturned), len(bd.Started), len(bd.Complete))
